@@ -263,6 +263,9 @@ func (a *ics20) recv(ctx sdk.Context, p channeltypes.Packet) error {
 	if transfertypes.ReceiverChainIsSource(p.GetSourcePort(), p.GetSourceChannel(), d.Denom) {
 		prefix := transfertypes.GetDenomPrefix(p.GetSourcePort(), p.GetSourceChannel())
 		unprefixed := d.Denom[len(prefix):]
+		if unprefixed == "" {
+			return errors.New("base denomination cannot be blank")
+		}
 		denom := unprefixed
 		tr := transfertypes.ParseDenomTrace(unprefixed)
 		if !tr.IsNativeDenom() {
